@@ -174,16 +174,18 @@ class Response(Scenario):
     float_shim = ["mxlpy.model", "mxlpy.simulator"]
     isinstance_shim = ["mxlpy.simulation"]
 
-    def __init__(self, normalized, parallel, with_variables, sym_h=True):
+    def __init__(self, normalized, parallel, with_variables, sym_h=True, kind="influx", one_param=False):
         self.normalized, self.parallel, self.with_variables, self.sym_h = normalized, parallel, with_variables, sym_h
-        self.key = f"C18/response/{'scaled' if normalized else 'unscaled'}/{'pool' if parallel else 'seq'}/{'y0-given' if with_variables else 'y0-default'}/{'h-' + str(sym_h) if sym_h else 'h-default'}"
+        self.kind, self.one_param = kind, one_param
+        self.key = (f"C18/response/{kind}/{'scaled' if normalized else 'unscaled'}/{'pool' if parallel else 'seq'}/"
+                    f"{'y0-given' if with_variables else 'y0-default'}/{'h-' + str(sym_h) if sym_h else 'h-default'}{'/one-parameter' if one_param else ''}")
         self.timeout_ms = 10000
 
     def run(self, ctx):
         import mxlpy.integrators.int_scipy as isc
         import mxlpy.parallel as mpar
 
-        fm = FlowModel("influx")
+        fm = FlowModel(self.kind)
         saved = (isc.spi, mpar.pebble, mpar.tqdm)
         isc.spi = StubSPI(fm, ctx.symbolic)
         mpar.pebble = PebbleStub(ctx)
@@ -204,25 +206,35 @@ class Response(Scenario):
             ctx.assume(h < 1)
         pv_before = dict(m.get_parameter_values())
         ic_before = dict(m.get_initial_conditions())
-        y0 = {"x": ctx.real("u_x")} if self.with_variables else None
+        names = m.get_variable_names()
+        y0 = {v: ctx.real(f"u_{v}") for v in names} if self.with_variables else None
         kw = dict(normalized=self.normalized, parallel=self.parallel, variables=y0, disable_tqdm=True)
+        if self.one_param:
+            kw["to_scan"] = [m.get_parameter_names()[-1]]
         if self.sym_h:
             kw["displacement"] = h
         with ctx.impl("response_coefficients"):
             rc = mca.response_coefficients(m, **kw)
             cv, cf = rc.variables, rc.fluxes
-        start = [y0["x"]] if y0 else [ic_before["x"]]
+        start = [y0[v] for v in names] if y0 else [ic_before[v] for v in names]
 
         def ss(p):
             ps = {k: p[k] for k in sorted(p)}
-            x = fm.flow(ps, start, 0.0, 100.0, sym)[0]
-            return {"x": x, "vin": p["kin"], "v": p["k"] * x}
+            y = fm.flow(ps, start, 0.0, 100.0, sym)
+            if self.kind == "influx":
+                return {"x": y[0], "vin": p["kin"], "v": p["k"] * y[0]}
+            return {"a": y[0], "b": y[1], "vf": p["kf"] * y[0], "vr": p["kr"] * y[1]}
 
         base = ss(pv_before)
-        for par in m.get_parameter_names():
+        var_rows = names
+        # fluxes of the two-variable model are products of a perturbed parameter and an uninterpreted steady state (slow, and
+        # covered by the one-variable model): only its concentrations are compared
+        flux_rows = [r_ for r_ in base if r_ not in names] if self.kind == "influx" else []
+        for par in (kw.get("to_scan") or m.get_parameter_names()):
             old = pv_before[par]
             up, lo = ss({**pv_before, par: old * (1 + h)}), ss({**pv_before, par: old * (1 - h)})
-            for name, frame in (("x", cv), ("vin", cf), ("v", cf)):
+            for name in var_rows + flux_rows:
+                frame = cv if name in var_rows else cf
                 quot = (up[name] - lo[name]) / (2 * h * old)
                 if self.normalized:
                     quot = quot * (old / base[name])
@@ -241,9 +253,10 @@ class McElasticity(Scenario):
     modules = ["mxlpy.model", "mxlpy.mca", "mxlpy.mc", "mxlpy.scan", "mxlpy.parallel", "mxlpy"]
     float_shim = ["mxlpy.model"]
 
-    def __init__(self, which):
+    def __init__(self, which, nrows=2):
         self.which = which
-        self.key = f"C18/mc.{which}_elasticities/power/pool"
+        self.nrows = nrows
+        self.key = f"C18/mc.{which}_elasticities/power/pool/rows{nrows}"
 
     def run(self, ctx):
         import mxlpy.parallel as mpar
@@ -265,8 +278,8 @@ class McElasticity(Scenario):
         h = ctx.real("h")
         ctx.assume(h > 0)
         ctx.assume(h < 1)
-        labels = [4, 1]
-        cells = [ctx.real(f"row{r}_k2") for r in range(2)]
+        labels = [4, 1][: self.nrows]
+        cells = [ctx.real(f"row{r}_k2") for r in range(self.nrows)]
         mc_to_scan = pd.DataFrame({"k2": cells}, index=labels, dtype=object if ctx.symbolic else float)
         state = {v: ctx.real(f"s_{v}") for v in m.get_variable_names()}
         pv_before = dict(m.get_parameter_values())
@@ -290,7 +303,7 @@ class McElasticity(Scenario):
 
 
 def scenarios(tier, seed):
-    scs = [McElasticity("variable"), McElasticity("parameter")]
+    scs = [McElasticity("variable"), McElasticity("parameter"), McElasticity("variable", 1), McElasticity("parameter", 1)]
     for which in ("variable", "parameter"):
         for model in ("power", "derivedpar", "mm"):
             for normalized in (True, False):
@@ -307,4 +320,12 @@ def scenarios(tier, seed):
                 scs.append(Response(normalized, parallel, with_vars, sym_h=False))
     scs.append(Response(True, False, False, sym_h="quarter"))
     scs.append(Response(False, True, False, sym_h="quarter"))
+    # a steady state that depends on where the run starts (conserved total); scans over a single parameter keep the number of
+    # steady-state runs (and so of convergence forks) small
+    for normalized in (True, False):
+        for parallel in (False, True):
+            scs.append(Response(normalized, parallel, True, sym_h=False, kind="moiety", one_param=True))
+            if tier != "quick":
+                scs.append(Response(normalized, parallel, True, sym_h=False, kind="moiety"))
+    scs.append(Response(False, True, True, sym_h=False, kind="influx", one_param=True))
     return scs
